@@ -238,6 +238,9 @@ def build(interp):
     M[dict] = m_dict
 
     def m_len(x):
+        f = getattr(type(x), 'pyvc_len', None)
+        if f is not None:
+            return f(x)          # ghost containers may have a symbolic length
         return len(x)
     M[len] = m_len
 
@@ -339,6 +342,64 @@ def build(interp):
             return np.array(idx, dtype=np.int64)
         return np.argsort(x, *a, **k)
     M[np.argsort] = np_argsort
+
+    _INT_DTYPES = (int, np.int64, np.int32, np.intp, 'int64', 'int')
+
+    def _np_filled(real, fill):
+        def f(shape, dtype=float, **k):
+            if dtype in _INT_DTYPES or (isinstance(dtype, np.dtype) and dtype.kind == 'i'):
+                # integer scratch arrays are object arrays of python ints, so that symbolic ints can be stored
+                a = np.empty(shape, dtype=object)
+                a.fill(fill)
+                return a
+            return real(shape, dtype=dtype, **k)
+        return f
+    M[np.zeros] = _np_filled(np.zeros, 0)
+    M[np.ones] = _np_filled(np.ones, 1)
+    M[np.empty] = _np_filled(np.empty, 0)
+
+    def np_unique(ar, return_index=False, return_inverse=False, return_counts=False, axis=None, **k):
+        if not has_sym(ar):
+            a = np.asarray(ar)
+            if a.dtype == object:
+                a = a.astype(np.int64)
+            return np.unique(a, return_index=return_index, return_inverse=return_inverse,
+                             return_counts=return_counts, axis=axis, **k)
+        a = np.asarray(ar, dtype=object)
+        if a.ndim == 1 and axis in (None, 0):
+            rows = [x for x in a.tolist()]
+            one_d = True
+        elif a.ndim == 2 and axis == 0:
+            rows = [tuple(r) for r in a.tolist()]
+            one_d = False
+        else:
+            raise Unsupported("np.unique of symbolic array with this ndim/axis")
+        order = sym_sorted(range(len(rows)), key=lambda i: rows[i])
+        uniq, first, inverse, counts = [], [], [None] * len(rows), []
+        for i in order:
+            if uniq and interp.truth(deep_eq(rows[i], uniq[-1])):
+                counts[-1] += 1
+                first[-1] = min(first[-1], i)
+            else:
+                uniq.append(rows[i])
+                first.append(i)
+                counts.append(1)
+            inverse[i] = len(uniq) - 1
+        if one_d:
+            u = np.array(uniq, dtype=object)
+        else:
+            u = np.empty((len(uniq), a.shape[1]), dtype=object)
+            for r, row in enumerate(uniq):
+                u[r, :] = list(row)
+        out = [u]
+        if return_index:
+            out.append(np.array(first, dtype=np.int64))
+        if return_inverse:
+            out.append(np.array(inverse, dtype=np.int64))
+        if return_counts:
+            out.append(np.array(counts, dtype=np.int64))
+        return out[0] if len(out) == 1 else tuple(out)
+    M[np.unique] = np_unique
 
     return M
 
